@@ -153,3 +153,27 @@ func (in *interpreter) uninterpHash(kind string, input []value, n int) []value {
 	in.tmp["hash:"+kind] = calls
 	return out
 }
+
+func init() {
+	externals["(crypto.Hash).New"] = func(fr *frame, args []value) value {
+		in := fr.i
+		kind := ""
+		switch asInt64(args[0]) {
+		case 4:
+			kind = "sha224"
+		case 5:
+			kind = "sha256"
+		default:
+			panic(unsupported("crypto.Hash.New for this hash function"))
+		}
+		pkg := in.prog.ImportedPackage("crypto/internal/fips140/sha256")
+		if pkg == nil {
+			panic(unsupported("crypto/internal/fips140/sha256 not loaded"))
+		}
+		dt := pkg.Type("Digest").Object().Type()
+		cell := make([]value, 1)
+		cell[0] = &hashState{kind: kind}
+		in.noteRange(cell)
+		return iface{typesNewPointer(dt), &cell[0]}
+	}
+}
